@@ -2,9 +2,12 @@
 # dev helper: merge a builder agent's branches into /verif and /repo (sequentially, by the integrator)
 n="$1"
 cd /verif || exit 1
+# a dirty tree makes `git merge` abort: commit what the checks rewrote (evidence) first
+git add -A; git commit -qm "evidence/work in progress before integrating $n" 2>/dev/null
 git merge --no-edit "$n" > /tmp/merge-$n.log 2>&1 || {
   # generated files may conflict: take ours and regenerate
-  for f in MANIFEST.json known_findings.json lean/Main.lean tools/extract.py $(git diff --name-only --diff-filter=U | grep "^evidence/"); do git checkout --ours -- $f 2>/dev/null && git add $f; done
+  for f in MANIFEST.json known_findings.json lean/Main.lean tools/extract.py; do git checkout --ours -- $f 2>/dev/null && git add $f; done
+  for f in $(git diff --name-only --diff-filter=U | grep "^evidence/\|confirm.txt$"); do git checkout --theirs -- $f 2>/dev/null && git add $f; done
   if git diff --name-only --diff-filter=U | grep -q .; then echo "UNRESOLVED:"; git diff --name-only --diff-filter=U; exit 1; fi
   git commit -q --no-edit
 }
@@ -17,4 +20,4 @@ for c in $commits; do
 done
 python3 tools/gen_main.py; python3 tools/gen_cargo.py; python3 tools/gen_manifest.py
 git add -A; git commit -qm "integrate $n: regenerate Main.lean, MANIFEST.json, known_findings.json"
-echo "merged $n"
+echo "merged $n (unmerged commits left: $(git rev-list --count main..$n))"
